@@ -60,6 +60,9 @@ func (p *c09) Init(tier string) {
 		pipe(selPipe{"a", ""}), pipe(selPipe{"a", "string"}), pipe(selPipe{"b", "number"}), pipe(selPipe{"a", "bogus"}), pipe(selPipe{"a", ""}, selPipe{"b", ""}), pipe(selPipe{"a", "string"}, selPipe{"b", ""}), pipe(selPipe{"zz", ""}), pipe(selPipe{"b", "string"}),
 		{kind: "bad", key: "[x]"}, {kind: "bad", key: "[(0:1:2)]"}, {kind: "bad", key: "[(begin:x)]"},
 		{kind: "cont"},
+		// a range followed by further dimensions whose index / bound lies beyond the slice but inside
+		// the array the slice was taken from
+		idx(false, dr(0, 1), di(1)), idx(true, dr(0, 1), di(2)), idx(false, de(), dr(0, 1), di(2)), idx(false, dr(0, 1), dr(0, 2)), idx(false, dr(1, 2), di(0), di(1)),
 	}
 	for _, i := range []int{0, 1, 3, 4, 6, 7, 9, 10, 14, 15, 17, 20, 21, 22, 26, 27, 29, 32, 33, 36, 37, 40, 41, 42, 43, 48} {
 		p.small = append(p.small, p.menu[i])
